@@ -107,7 +107,13 @@ v("c12-nary-operands-no-parens", "C12", "expr_rep.py",
   "subs_strs = [str(ai.to_python(want_inline_parens=True)) for ai in self.args]",
   "subs_strs = [str(ai.to_python(want_inline_parens=False)) for ai in self.args]")
 v("c12-value-str", "C12", "expr_rep.py",
-  "return PythonText(self.value.__repr__(), is_in_parens=False)", "return PythonText(str(self.value), is_in_parens=False)")
+  "        value_text = self.value.__repr__()\n", "        value_text = str(self.value)\n")
+v("c12-negative-literal-ungrouped", "C12", "expr_rep.py",
+  "            return PythonText(\"(\" + value_text + \")\", is_in_parens=True)\n        return PythonText(value_text, is_in_parens=False)",
+  "            return PythonText(value_text, is_in_parens=False)\n        return PythonText(value_text, is_in_parens=False)")
+v("c12-unary-claims-parens", "C12", "expr_rep.py",
+  "                    return PythonText(\"(\" + result + \")\", is_in_parens=True)\n                return PythonText(result, is_in_parens=False)\n            if self.method:",
+  "                    return PythonText(\"(\" + result + \")\", is_in_parens=True)\n                return PythonText(result, is_in_parens=True)\n            if self.method:")
 v("c12-join-str-jointype", "C12", VR,
   "\"on=\" + on_arg.__repr__() + \", jointype=\" + self.jointype.__repr__() + \")\"",
   "\"on=\" + on_arg.__repr__() + \", jointype=\" + str(self.jointype) + \")\"")
@@ -483,3 +489,55 @@ v("c19-transform-inplace-on-X", "C19", "cdata.py",
   "        X = local_data_model.clean_copy(X)\n        if self.blocks_in is not None:", "        X.reset_index(drop=True, inplace=True)\n        if self.blocks_in is not None:")
 v("c19-twin-copy-list", "C19", "polars_model.py",
   "            order_cols = list(partition_by)\n", "            order_cols = [c for c in partition_by]\n", expect="silent")
+
+# ---------------------------------------------------------------- C18
+v("c18-select-rows-no-clean-copy", "C18", PB, "        res = self.clean_copy(res.loc[selection, :])\n        return res", "        res = res.loc[selection, :]\n        return res")
+v("c18-order-rows-no-ignore-index", "C18", PB,
+  "                ascending=ascending,\n                ignore_index=True,\n                inplace=False,\n            )\n            self.drop_indices(res)",
+  "                ascending=ascending,\n                inplace=False,\n            )")
+v("c18-blocks-sort-keeps-index", "C18", PB,
+  "                s.sort_values(\n                    by=blocks_in.record_keys, inplace=False, ignore_index=True\n                )\n                for s in split",
+  "                s.sort_values(by=blocks_in.record_keys, inplace=False)\n                for s in split")
+v("c18-concat-rows-keeps-index", "C18", PB,
+  "        res = self.pd.concat([left, right], axis=0, ignore_index=True, sort=False)\n        self.drop_indices(res)\n        return res",
+  "        res = self.pd.concat([left, right], axis=0, sort=False)\n        return res")
+v("c18-pandas-ascending-flipped", "C18", PB,
+  "                False if ci in set(op.reverse) else True for ci in op.order_columns", "                True if ci in set(op.reverse) else False for ci in op.order_columns")
+v("c18-polars-descending-flipped", "C18", "polars_model.py",
+  "            True if ci in set(op.reverse) else False for ci in op.order_columns", "            False if ci in set(op.reverse) else True for ci in op.order_columns")
+v("c18-sql-desc-flipped", "C18", SM,
+  "                        + (\" DESC\" if ci in set(order_node.reverse) else \"\")", "                        + (\"\" if ci in set(order_node.reverse) else \" DESC\")")
+v("c18-pandas-limit-before-sort", "C18", PB,
+  "        res = self._eval_value_source(op.sources[0], data_map=data_map)\n        if res.shape[0] > 1:\n            ascending = [",
+  "        res = self._eval_value_source(op.sources[0], data_map=data_map)\n        if (op.limit is not None) and (res.shape[0] > op.limit):\n            res = self.clean_copy(res.iloc[range(op.limit), :])\n        if res.shape[0] > 1:\n            ascending = [")
+v("c18-sql-limit-before-order", "C18", SM,
+  "        suffix: List[str] = []\n        if len(order_node.order_columns) > 0:", "        suffix: List[str] = []\n        if order_node.limit is not None:\n            suffix = suffix + [\"LIMIT \" + order_node.limit.__repr__()]\n        if len(order_node.order_columns) > 0:")
+v("c18-polars-flags-over-reverse", "C18", "polars_model.py",
+  "            True if ci in set(op.reverse) else False for ci in op.order_columns\n        ]\n        res = res.sort(by=op.order_columns, descending=reversed_cols)",
+  "            True for ci in op.reverse\n        ]\n        res = res.sort(by=op.order_columns, descending=reversed_cols)")
+v("c18-twin-reset-index", "C18", PB, "        res = self.clean_copy(res.loc[selection, :])\n        return res", "        res = res.loc[selection, :].reset_index(drop=True)\n        return res", expect="silent")
+v("c18-twin-redundant-clean-copy-removed", "C18", PB,
+  "            res = self.clean_copy(res.iloc[range(op.limit), :])", "            res = res.iloc[range(op.limit), :]", expect="silent")
+
+# ---------------------------------------------------------------- C27
+v("c27-pandas-no-partition-groupby", "C27", PB,
+  "                opframe = subframe.groupby(op.partition_by, observed=True, dropna=False)", "                opframe = subframe.groupby([standin_name], observed=True, dropna=False)")
+v("c27-pandas-window-ascending-ignores-reverse", "C27", PB, "            ascending = [c not in set(op.reverse) for c in col_list]", "            ascending = [True for c in col_list]")
+v("c27-pandas-window-ascending-flipped", "C27", PB, "            ascending = [c not in set(op.reverse) for c in col_list]", "            ascending = [c in set(op.reverse) for c in col_list]")
+v("c27-pandas-no-restore-sort", "C27", PB, "            subframe = subframe.sort_values(by=[\"_data_algebra_orig_index\"])\n", "")
+v("c27-pandas-sort-no-clean", "C27", PB,
+  "                subframe = self.clean_copy(\n                    subframe.sort_values(by=col_list, ascending=ascending)\n                )",
+  "                subframe = subframe.sort_values(by=col_list, ascending=ascending)", expect="silent")
+v("c27-sql-no-desc", "C27", SM, "                    self.quote_identifier(ci) + (\" DESC\" if ci in revs else \"\")", "                    self.quote_identifier(ci)")
+v("c27-sql-no-partition-clause", "C27", SM,
+  "                window_term = window_term + \"PARTITION BY \" + \", \".join(pt) + \" \"\n", "                window_term = window_term + \" \"\n")
+v("c27-sql-first-term-only", "C27", SM,
+  "            terms[ci] = self.expr_to_sql(oi) + window_term\n", "            terms[ci] = self.expr_to_sql(oi) + (window_term if ci == list(subops.keys())[0] else \"\")\n")
+v("c27-polars-sort-after-compute", "C27", "polars_model.py",
+  "            res = res.sort(by=op.order_by, descending=reversed_cols)\n        res = res.with_columns(produced_columns)",
+  "            pass\n        res = res.with_columns(produced_columns)\n        if len(op.order_by) > 0:\n            res = res.sort(by=op.order_by, descending=reversed_cols)")
+v("c27-polars-over-dropped", "C27", "polars_model.py", "                fld_k = fld_k.over(partition_by)\n", "                fld_k = fld_k\n")
+v("c27-polars-descending-flipped", "C27", "polars_model.py",
+  "                True if ci in set(op.reverse) else False for ci in op.order_by", "                False if ci in set(op.reverse) else True for ci in op.order_by")
+v("c27-twin-rename-revs", "C27", SM, "                revs = set(extend_node.reverse)\n                rt = [\n                    self.quote_identifier(ci) + (\" DESC\" if ci in revs else \"\")",
+  "                reversed_set = set(extend_node.reverse)\n                rt = [\n                    self.quote_identifier(ci) + (\" DESC\" if ci in reversed_set else \"\")", expect="silent")
